@@ -96,6 +96,16 @@ Theorem C23_nonvacuous :
 Proof. exact ex_connect. Qed.
 Print Assumptions C23_nonvacuous.
 
+(** the hypotheses of C23_unsupported_command / _address_type are satisfiable:
+    BIND to a domain, and address type 5 *)
+Theorem C23_unsupported_examples :
+  request ex_env [[Byte.x05; Byte.x00]] None (req_bytes Byte.x02 Byte.x00 (HDomain [Byte.x61]) 80)
+  = mkResult [[Byte.x05; Byte.x00]; reply 7 None 0] None None EBadCmd [] /\
+  request ex_env [[Byte.x05; Byte.x00]] None [Byte.x05; Byte.x01; Byte.x00; Byte.x05; Byte.x09]
+  = mkResult [[Byte.x05; Byte.x00]; reply 8 None 0] None None EBadAtyp [Byte.x09].
+Proof. vm_compute. split; reflexivity. Qed.
+Print Assumptions C23_unsupported_examples.
+
 (** The constants, the error table, the shape of the address switch and of
     the command dispatch, and the lengths a bound address coming back from
     the mesh can have, regenerated from the source on this run, are the
